@@ -2,6 +2,7 @@ package rest
 
 import (
 	"net/http"
+	"sync"
 	"time"
 
 	"github.com/gorilla/websocket"
@@ -37,6 +38,8 @@ type msgListenerV2 struct {
 	hub     *msghub.Hub                    // Global message hub.
 	c       chan *model.JSONMonitorEventV2 // Queue of incoming events.
 	mailbox string                         // Name of mailbox to monitor, "" == all mailboxes.
+	done    chan struct{}                  // Closed (once) when the listener shuts down; c is never closed.
+	once    sync.Once                      // Guards close(done).
 }
 
 // newMsgListenerV2 creates a listener and registers it.  Optional mailbox parameter will restrict
@@ -46,6 +49,7 @@ func newMsgListenerV2(hub *msghub.Hub, mailbox string) *msgListenerV2 {
 		hub:     hub,
 		c:       make(chan *model.JSONMonitorEventV2, 100),
 		mailbox: mailbox,
+		done:    make(chan struct{}),
 	}
 	hub.AddListener(ml)
 	return ml
@@ -59,12 +63,10 @@ func (ml *msgListenerV2) Receive(msg event.MessageMetadata) error {
 	}
 
 	// Enqueue for websocket.
-	ml.c <- &model.JSONMonitorEventV2{
+	return ml.enqueue(&model.JSONMonitorEventV2{
 		Variant: "message-stored",
 		Header:  metadataToHeader(&msg),
-	}
-
-	return nil
+	})
 }
 
 // Delete handles a deleted message.
@@ -75,15 +77,28 @@ func (ml *msgListenerV2) Delete(mailbox string, id string) error {
 	}
 
 	// Enqueue for websocket.
-	ml.c <- &model.JSONMonitorEventV2{
+	return ml.enqueue(&model.JSONMonitorEventV2{
 		Variant: "message-deleted",
 		Identifier: &model.JSONMessageIDV2{
 			Mailbox: mailbox,
 			ID:      id,
 		},
-	}
+	})
+}
 
-	return nil
+// enqueue hands an event to the socket writer.  It runs on the hub goroutine and never blocks it:
+// an error makes the hub drop this listener.
+func (ml *msgListenerV2) enqueue(ev *model.JSONMonitorEventV2) error {
+	select {
+	case ml.c <- ev:
+		return nil
+	case <-ml.done:
+		return errListenerClosed
+	default:
+		// Queue full, the client is too slow.
+		ml.closeDone()
+		return errListenerSlow
+	}
 }
 
 // WSReader makes sure the websocket client is still connected, discards any messages from client
@@ -136,19 +151,21 @@ func (ml *msgListenerV2) WSWriter(conn *websocket.Conn) {
 	// Handle messages from hub until msgListener is closed
 	for {
 		select {
-		case event, ok := <-ml.c:
+		case event := <-ml.c:
 			if err := conn.SetWriteDeadline(time.Now().Add(writeWaitV2)); err != nil {
 				slog.Warn().Err(err).Msg("Failed to set write deadline for msg")
-			}
-			if !ok {
-				// msgListener closed, exit
-				_ = conn.WriteMessage(websocket.CloseMessage, []byte{})
-				return
 			}
 			if conn.WriteJSON(event) != nil {
 				// Write failed
 				return
 			}
+		case <-ml.done:
+			// msgListener closed, exit
+			if err := conn.SetWriteDeadline(time.Now().Add(writeWaitV2)); err != nil {
+				slog.Warn().Err(err).Msg("Failed to set write deadline for close")
+			}
+			_ = conn.WriteMessage(websocket.CloseMessage, []byte{})
+			return
 		case <-ticker.C:
 			// Send ping
 			if err := conn.SetWriteDeadline(time.Now().Add(writeWaitV2)); err != nil {
@@ -163,15 +180,17 @@ func (ml *msgListenerV2) WSWriter(conn *websocket.Conn) {
 	}
 }
 
-// Close removes the listener registration
+// Close removes the listener registration; safe to call more than once and from any goroutine
+// except the hub's own (RemoveListener queues an operation on the hub).
 func (ml *msgListenerV2) Close() {
-	select {
-	case <-ml.c:
-		// Already closed
-	default:
-		ml.hub.RemoveListener(ml)
-		close(ml.c)
-	}
+	ml.closeDone()
+	ml.hub.RemoveListener(ml)
+}
+
+// closeDone signals shutdown to the writer and to Receive/Delete.  The event queue c is never
+// closed, so a concurrent Receive cannot panic.
+func (ml *msgListenerV2) closeDone() {
+	ml.once.Do(func() { close(ml.done) })
 }
 
 // MonitorAllMessagesV2 is a web handler which upgrades the connection to a websocket and notifies
